@@ -40,7 +40,7 @@ def gen_plan(seed, tier="quick"):
     driver = drvsim.DRIVERS[seed % 4]
     ncallers = r.choice([2, 2, 3, 3, 4])
     plan = {"engine": "drvsim", "property": PROP, "driver": driver, "seed": seed,
-            "knobs": plans.gen_knobs(r, driver),
+            "knobs": plans.gen_knobs(r, driver, allow_batch=True),
             "callers": plans.gen_callers(r, driver, ncallers, 3 if tier == "quick" else 4),
             "deadline_s": 600}
     return plan
